@@ -158,6 +158,26 @@ class real_hash_mode:
         install_structural_hash()
 
 
+def decide_real(fn, *objs):
+    """Re-decide a failing law with the builtin `hash` on concrete values.  Under CrossHair the objects are realised
+    and the check runs outside the tracer (CrossHair may replace a builtin hash() call by a fresh symbolic int, which
+    the C-level tuple hash rejects)."""
+    tracing = False
+    try:
+        from crosshair.core import deep_realize
+        from crosshair.tracers import NoTracing, is_tracing
+        tracing = is_tracing()
+    except ImportError:
+        pass
+    if tracing:
+        objs = deep_realize(objs)
+        with NoTracing():
+            with real_hash_mode(*objs):
+                return fn(*objs)
+    with real_hash_mode(*objs):
+        return fn(*objs)
+
+
 def shash(o):
     """The object's own __hash__ method (structural while the stub is installed)."""
     return o.__hash__()
